@@ -8,7 +8,7 @@ Finding classes:
 import subprocess
 import os
 from sexp import show, parse
-from gen import Gen, kind, is_basic, is_fixed, UINT_W
+from gen import Gen, kind, is_basic, is_fixed, UINT_W, StoreGen, nested_ty
 
 HERE = os.path.dirname(os.path.abspath(__file__))
 DRV = os.path.join(os.path.dirname(HERE), 'lean', '.lake', 'build', 'bin', 'rmkdrv')
@@ -914,8 +914,75 @@ class C08(Prop):
         return out
 
 
+class StoreProp(Prop):
+    quick_n = 150
+    thorough_n = 2500
+    p_bad = 0.0
+
+    def generate(self, g, tier, focus=None):
+        out = []
+        for _ in range(self.n(tier)):
+            t = nested_ty(g, g.rng.choice([1, 2, 2, 3]))
+            v = g.val(t, 12)
+            sg = StoreGen(g, t, v)
+            ops = sg.history(g.rng.choice([6, 15, 40] if tier == 'quick' else [6, 15, 40, 100]), self.p_bad)
+            out.append(show(['store', t, v] + ops))
+        return out
+
+    def nontrivial(self, c):
+        return c.count('(mut') >= 1 and (c.count('(child') + c.count('(copy') + c.count('(snap')) >= 1
+
+    def compare_store(self, case, py, mo, stats, what):
+        """what: 'views' (C05/C14) or 'snaps' (C06)"""
+        out = []
+        if py.get('p.ctor') == 'err' or mo.get('i.ctor') == 'err':
+            return [F('prop', 'ctor', py.get('p.ctor'), mo.get('i.ctor'))]
+        for i, op in enumerate(case[3:]):
+            bump(stats, 'ops', op[0] + (':' + op[2][0] if op[0] in ('mut', 'bad') else ''))
+            p = '%d.' % i
+            if py.get(p + 'p') != mo.get(p + 'i'):
+                cls = 'prop' if op[0] == 'bad' else 'corr'
+                out.append(F(cls, 'op %d %s ok/err' % (i, show(op)), py.get(p + 'p'), mo.get(p + 'i')))
+                break
+            a, b = py.get(p + what), mo.get(p + what)
+            if a != b:
+                av, bv = (a or '').split(','), (b or '').split(',')
+                idx = [j for j in range(max(len(av), len(bv))) if (av[j] if j < len(av) else None) != (bv[j] if j < len(bv) else None)]
+                out.append(F('prop', '%s %s differ after op %d %s' % (what, idx, i, show(op)), a, b))
+                break
+        return out
+
+
+class C05(StoreProp):
+    pid = 'C05'
+    rule = ('random nested composite types and values; histories (6/15/40[/100] steps) that obtain child views (container '
+            'fields, list / vector elements, union values; up to 9 simultaneously held views, trees and chains), mutate '
+            'through any of them in any order, copy and snapshot; after EVERY step root and encoding of EVERY held view '
+            'against the store model (hook-chain semantics); non-trivial = at least one mutation and one child/copy/snapshot')
+
+    def compare(self, case, py, mo, stats):
+        bump(stats, 'kinds', kind(case[1]))
+        return self.compare_store(case, py, mo, stats, 'views')
+
+
+class C06(StoreProp):
+    pid = 'C06'
+    rule = C05.rule.replace('after EVERY step root and encoding of EVERY held view against the store model (hook-chain semantics)',
+                            'after EVERY step every snapshot taken so far (get_backing) and every copy is re-read: root recomputed '
+                            'from the leaves ignoring cached roots, cached root, and encoding must still be those at the time it was taken')
+
+    def compare(self, case, py, mo, stats):
+        bump(stats, 'kinds', kind(case[1]))
+        out = self.compare_store(case, py, mo, stats, 'snaps')
+        if not out:
+            out = [f for f in self.compare_store(case, py, mo, None, 'views')]
+            for f in out:
+                f['key'] = 'copies/' + f['key']
+        return out
+
+
 REG = {}
-for cls in (C01, C02, C03, C04, C07, C08, C09, C10, C11, C12, C13, C14, C15, C16, C18):
+for cls in (C01, C02, C03, C04, C05, C06, C07, C08, C09, C10, C11, C12, C13, C14, C15, C16, C18):
     REG[cls.pid] = cls
 
 
